@@ -49,6 +49,10 @@ func vpAlnum(tag string) byte {
 // tag value types in base 5 (A, i, f, Z, H).
 func vpRecord(tag string, txt, ints, ntags, types int) *SAM {
 	s := &SAM{}
+	long := txt
+	if txt >= 1000 {
+		txt = 1
+	}
 	s.Qname = vpText(tag+"qname", txt)
 	if len(s.Qname) > 0 {
 		vpAssume(s.Qname[0] != '@')
@@ -61,8 +65,17 @@ func vpRecord(tag string, txt, ints, ntags, types int) *SAM {
 	s.Rnext = vpText(tag+"rnext", txt)
 	s.Pnext = vpSymInt(tag+"pnext", ints&8 != 0, -1)
 	s.Tlen = vpSymInt(tag+"tlen", ints&16 != 0, 10)
-	s.Seq = vpText(tag+"seq", txt)
-	s.Qual = vpText(tag+"qual", txt)
+	if long >= 1000 {
+		txt = long
+		// long SEQ/QUAL: the line exceeds bufio's 4096-byte buffer
+		okb := func(c byte) bool { return c != '\t' && c != '\n' && c != '\r' }
+		s.Seq = string(vpSparse(tag+"seq", txt, okb))
+		s.Qual = string(vpSparse(tag+"qual", txt, okb))
+		txt = 1
+	} else {
+		s.Seq = vpText(tag+"seq", txt)
+		s.Qual = vpText(tag+"qual", txt)
+	}
 	s.Tags = map[string]any{}
 	for t := 0; t < ntags; t++ {
 		tn := tag + "tag" + vpDigit(t)
